@@ -307,6 +307,17 @@ def gen_binset(rng, nmax):
 def probe_binned(rng, binset_aa):
     c = sorted(binset_aa)
     r = rng.random()
+    if r < 0.2 and len(c) >= 3:
+        # a run whose end points are bin centres and whose length is the number of bins spanned, with interior
+        # members moved off their centres (each wavelength must be judged on its own)
+        i0 = rng.randrange(len(c) - 2)
+        i1 = rng.randrange(i0 + 2, len(c))
+        xs = list(c[i0:i1 + 1])
+        for j in rng.sample(range(1, len(xs) - 1), rng.randint(1, len(xs) - 2)):
+            k = i0 + j
+            gap = min(c[k] - c[k - 1], c[k + 1] - c[k])
+            xs[j] = c[k] + gap * rng.choice([0.25, -0.25, 0.125, -0.3])       # order preserved
+        return xs
     if r < 0.35:
         k = rng.sample(range(len(c)), min(len(c), rng.randint(1, 4)))
         xs = sorted(c[i] for i in k)
